@@ -12,6 +12,10 @@ CONSTANTS Paths, Sizes, Mtimes      \* token strings; Mtimes are <<secs, frac>> 
 Digits == {"0", "1", "2", "3", "4", "5", "6", "7", "8", "9"}
 IsNumber(s) == s # <<>> /\ \A i \in 1..Len(s) : s[i] \in Digits
 
+\* whole seconds may be negative (before 1970): `find -printf %T@` prints the FLOORED second and a non-negative fraction,
+\* so the second is the text before the point, as it stands
+IsInt(s) == IsNumber(s) \/ (Len(s) >= 2 /\ s[1] = "-" /\ IsNumber(Tail(s)))
+
 MtimeStr(m) == IF m[2] = <<>> THEN m[1] ELSE m[1] \o <<".">> \o m[2]
 FormatRec(r) == r.size \o <<"TAB">> \o MtimeStr(r.mtime) \o <<"TAB">> \o <<".", "/">> \o r.path \o <<"NUL">>
 
@@ -43,7 +47,7 @@ ParseEntry(e) ==
     IF Len(parts) < 3 THEN <<>>
     ELSE IF ~IsNumber(parts[1]) THEN <<>>
     ELSE LET secsTok == SplitAll(parts[2], ".")[1]
-             secs == IF IsNumber(secsTok) THEN secsTok ELSE <<"0">>
+             secs == IF IsInt(secsTok) THEN secsTok ELSE <<"0">>
              rel == StripDotSlash(parts[3])
          IN IF rel = <<>> THEN <<>> ELSE <<[path |-> rel, size |-> parts[1], secs |-> secs]>>
 
